@@ -111,6 +111,9 @@ func (e *explorer) explore(prefix []int, depth int, mine bool) {
 		e.st.HarnessError = fmt.Sprintf("replay of prefix %v diverged: %v", prefix, res.Notes)
 		return
 	}
+	if res.Status == sched.StatusStuckOpen {
+		e.st.Complete = false // an execution the scheduler had to abandon: no verdict for it, and none claimed
+	}
 	count := mine && (depth >= 2 || e.opt.Shard == 0)
 	choices := make([]int, len(res.Trace))
 	for i, p := range res.Trace {
